@@ -187,9 +187,15 @@ pub fn enum_def(e: &EnumSpec, o: &EnumOpts) -> String {
         let _ = writeln!(s, "#[repr({})]", r);
     }
     noise(&mut s, 2);
-    for grp in &e.groups {
+    for (gi, grp) in e.groups.iter().enumerate() {
         let items: Vec<String> = grp.iter().map(|a| eattr(a, o.err_ty, o.err_fn)).collect();
         let _ = writeln!(s, "#[strum({})]", items.join(", "));
+        if gi == 0 {
+            noise(&mut s, 5); // between the first and the second #[strum(..)] attribute
+        }
+    }
+    if e.groups.is_empty() {
+        noise(&mut s, 5);
     }
     noise(&mut s, 3);
     if let Some(d) = &e.disc_opts {
@@ -229,12 +235,20 @@ pub fn enum_def(e: &EnumSpec, o: &EnumOpts) -> String {
         if !v.docs_last {
             s.push_str(&docs);
         }
-        for n in &v.noise {
-            let _ = writeln!(s, "    {}", n);
-        }
-        for grp in &v.groups {
+        let at = v.noise_at.min(v.groups.len());
+        for (gi, grp) in v.groups.iter().enumerate() {
+            if gi == at {
+                for n in &v.noise {
+                    let _ = writeln!(s, "    {}", n);
+                }
+            }
             let items: Vec<String> = grp.iter().map(|a| vattr(a, &dw_fn_name(vi, 0))).collect();
             let _ = writeln!(s, "    #[strum({})]", items.join(", "));
+        }
+        if at >= v.groups.len() {
+            for n in &v.noise {
+                let _ = writeln!(s, "    {}", n);
+            }
         }
         for p in &v.disc_passthrough {
             let _ = writeln!(s, "    #[strum_discriminants({})]", p);
@@ -593,7 +607,7 @@ pub fn module_string(e: &EnumSpec, o: &ModOpts) -> ModuleSrc {
             src.push("pub fn mk_err(s: &str) -> vrt::MyErr { ERR_CNT.fetch_add(1, ::std::sync::atomic::Ordering::SeqCst); vrt::MyErr(s.to_string()) }");
         }
     }
-    let name = e.name.clone();
+    let name = e.type_name();
     let t1 = emit_one(e, &name, &mut src, true);
     match o.twin {
         None => {
@@ -670,7 +684,7 @@ pub fn glue_iter(e: &EnumSpec, name: &str, inst: &str, src: &mut Src) {
 pub fn module_iter(e: &EnumSpec, o: &ModOpts) -> ModuleSrc {
     let mut src = Src::default();
     src.push(&format!("pub mod m_{} {{", e.name.to_lowercase()));
-    let name = e.name.clone();
+    let name = e.type_name();
     let eo = enum_opts(e, &name);
     src.ranged("def", |s| s.push(&enum_def(e, &eo)));
     let g = generics(e, eo.t_bound, eo.t_inst);
@@ -699,7 +713,7 @@ pub fn module_iter(e: &EnumSpec, o: &ModOpts) -> ModuleSrc {
 pub fn module_repr(e: &EnumSpec, o: &ModOpts) -> ModuleSrc {
     let mut src = Src::default();
     src.push(&format!("pub mod m_{} {{", e.name.to_lowercase()));
-    let name = e.name.clone();
+    let name = e.type_name();
     let eo = enum_opts(e, &name);
     src.ranged("def", |s| s.push(&enum_def(e, &eo)));
     let g = generics(e, eo.t_bound, eo.t_inst);
@@ -754,7 +768,7 @@ pub fn module_repr(e: &EnumSpec, o: &ModOpts) -> ModuleSrc {
 pub fn module_shape(e: &EnumSpec, o: &ModOpts) -> ModuleSrc {
     let mut src = Src::default();
     src.push(&format!("pub mod m_{} {{", e.name.to_lowercase()));
-    let name = e.name.clone();
+    let name = e.type_name();
     let eo = enum_opts(e, &name);
     src.ranged("def", |s| s.push(&enum_def(e, &eo)));
     let g = generics(e, eo.t_bound, eo.t_inst);
@@ -847,7 +861,7 @@ fn disabled_probe_clash(e: &EnumSpec, v: &VariantSpec) -> bool {
 pub fn module_table(e: &EnumSpec, o: &ModOpts) -> ModuleSrc {
     let mut src = Src::default();
     src.push(&format!("pub mod m_{} {{", e.name.to_lowercase()));
-    let name = e.name.clone();
+    let name = e.type_name();
     let mut eo = enum_opts(e, &name);
     let extra: &[&str] = &["Clone", "Copy"];
     eo.extra_std_derives = extra;
@@ -878,16 +892,15 @@ pub fn module_table(e: &EnumSpec, o: &ModOpts) -> ModuleSrc {
 pub fn module_disc(e: &EnumSpec, o: &ModOpts) -> ModuleSrc {
     let mut src = Src::default();
     src.push(&format!("pub mod m_{} {{", e.name.to_lowercase()));
-    let name = e.name.clone();
+    let name = e.type_name();
     let opts = e.disc_opts.clone().unwrap_or_default();
     let dname = opts.name.clone().unwrap_or_else(|| format!("{}Discriminants", name));
     // private discriminant enum: the glue has to live next to it
     let private = opts.vis.as_deref() == Some("");
     let eo = enum_opts(e, &name);
     let g = generics(e, eo.t_bound, eo.t_inst);
-    if !private {
-        src.push("pub mod def {");
-    }
+    // (in the private case the whole glue sits inside `def`, next to the private type)
+    src.push("pub mod def {");
     src.ranged("def", |s| s.push(&enum_def(e, &eo)));
     if !private {
         src.push("}");
@@ -961,12 +974,27 @@ pub fn module_disc(e: &EnumSpec, o: &ModOpts) -> ModuleSrc {
         src.tagged(&format!("    fn d_from_repr(d: i128) -> Option<Option<usize>> {{ let x: {} = ::core::convert::TryFrom::try_from(d).ok()?; Some(D::from_repr(x).map(|d| d_idx(&d))) }}", rr), "C09:derive-FromRepr");
     }
     src.push("}");
+    if !has_trait {
+        // with a restricted visibility override the derive does not implement IntoDiscriminant: a
+        // hand-written impl must therefore not conflict (E0119 on this line = the override was ignored)
+        src.tagged(&format!("impl strum::IntoDiscriminant for {} {{ type Discriminant = (); fn discriminant(&self) {{}} }}", ty), "C09:no-into-discriminant-when-restricted");
+    }
     let std_ds: Vec<&str> = ["Hash", "PartialOrd", "Ord"].iter().copied().filter(|d| has(d)).collect();
     if !std_ds.is_empty() {
         let bounds: Vec<String> = std_ds.iter().map(|d| if *d == "Hash" { "::core::hash::Hash".to_string() } else { d.to_string() }).collect();
         src.tagged(&format!("fn assert_req<X: {}>() {{}} fn _r() {{ assert_req::<D>(); }}", bounds.join(" + ")), "C09:derive-std");
     }
     src.push(&format!("pub fn run(ctx: &mut vrt::Ctx) {{ {}::<{}>(ctx) }}", o.run_fn, ty));
+    if private {
+        src.push("}"); // end of def
+        src.push("pub fn run(ctx: &mut vrt::Ctx) { def::run(ctx) }");
+        // `vis()` makes the generated type private to its module: a glob import from outside must not
+        // see it, so the name below resolves to the harness's own item; if the type were visible the
+        // two glob imports would be ambiguous (E0659 on the tagged line)
+        src.push(&format!("mod vis_probe {{ pub mod other {{ pub struct {d}; }} use super::def::*; use self::other::*;", d = dname));
+        src.tagged(&format!("    fn _probe(_: {}) {{}}", dname), "C09:private-visibility");
+        src.push("}");
+    }
     src.push("}");
     ModuleSrc { enum_name: e.name.clone(), src }
 }
